@@ -69,15 +69,32 @@ fn say(s: &str) {
     o.flush().ok();
 }
 
-fn host<F: FnOnce() -> String>(f: F) {
+fn host<F: FnOnce() -> String>(f: F) -> bool {
     match catch_unwind(AssertUnwindSafe(f)) {
-        Ok(s) => say(&s),
-        Err(p) => say(&format!("=> panic {}", panic_msg(p))),
+        Ok(s) => {
+            say(&s);
+            !s.starts_with("=> err")
+        }
+        Err(p) => {
+            say(&format!("=> panic {}", panic_msg(p)));
+            false
+        }
     }
 }
 
 fn run_all(src: String) {
     let mut engine = Engine::new();
+    let _ = run_pieces(&mut engine, &src);
+    say("=== pieces done");
+    drop(engine);
+    say("=== end");
+}
+
+/// Returns false when a piece ended in an error or a panic (the engine may be left in the middle of something, e.g.
+/// with the output port still redirected: it is not used for another program then).
+fn run_pieces(engine_ref: &mut Engine, src: &str) -> bool {
+    let engine = engine_ref;
+    let mut clean = true;
     let mut held: Vec<SteelVal> = Vec::new();
     for piece in src.split("\n;;;---\n") {
         let first = piece.lines().next().unwrap_or("").trim().to_string();
@@ -85,23 +102,23 @@ fn run_all(src: String) {
             engine.extract_value(name.trim()).map_err(|e| format!("=> err {}", format!("{}", e).lines().next().unwrap_or("")))
         };
         if let Some(name) = first.strip_prefix(";;;host-display ") {
-            host(|| match get(&engine, name) {
+            clean &= host(|| match get(&*engine, name) {
                 Ok(v) => text_line(&format!("{}", v)),
                 Err(e) => e,
             });
         } else if let Some(name) = first.strip_prefix(";;;host-debug ") {
-            host(|| match get(&engine, name) {
+            clean &= host(|| match get(&*engine, name) {
                 Ok(v) => text_line(&format!("{:?}", v)),
                 Err(e) => e,
             });
         } else if let Some(name) = first.strip_prefix(";;;host-string ") {
-            host(|| match get(&engine, name) {
+            clean &= host(|| match get(&*engine, name) {
                 Ok(SteelVal::StringV(s)) => text_line(s.as_str()),
                 Ok(_) => "=> err not a string".to_string(),
                 Err(e) => e,
             });
         } else if let Some(name) = first.strip_prefix(";;;host-hash ") {
-            host(|| match get(&engine, name) {
+            clean &= host(|| match get(&*engine, name) {
                 Ok(v) => {
                     let mut h = std::collections::hash_map::DefaultHasher::new();
                     v.hash(&mut h);
@@ -111,17 +128,17 @@ fn run_all(src: String) {
                 Err(e) => e,
             });
         } else if let Some(names) = first.strip_prefix(";;;host-eq ") {
-            host(|| {
+            clean &= host(|| {
                 let mut it = names.split_whitespace();
                 let a = it.next().unwrap_or("");
                 let b = it.next().unwrap_or("");
-                match (get(&engine, a), get(&engine, b)) {
+                match (get(&*engine, a), get(&*engine, b)) {
                     (Ok(x), Ok(y)) => format!("=> eq {}", x == y),
                     (Err(e), _) | (_, Err(e)) => e,
                 }
             });
         } else if let Some(name) = first.strip_prefix(";;;host-take ") {
-            match get(&engine, name) {
+            match get(&*engine, name) {
                 Ok(v) => {
                     held.push(v);
                     say("=> taken")
@@ -130,7 +147,7 @@ fn run_all(src: String) {
             }
         } else if first.starts_with(";;;host-release") {
             let h = std::mem::take(&mut held);
-            host(move || {
+            clean &= host(move || {
                 drop(h);
                 "=> released".to_string()
             });
@@ -145,18 +162,20 @@ fn run_all(src: String) {
                     say("=> ok")
                 }
                 Ok(Err(e)) => {
+                    clean = false;
                     let msg = format!("{}", e);
                     let l: String = msg.lines().next().unwrap_or("").chars().take(200).collect();
                     say(&format!("=> err {}", l))
                 }
-                Err(p) => say(&format!("=> panic {}", panic_msg(p))),
+                Err(p) => {
+                    clean = false;
+                    say(&format!("=> panic {}", panic_msg(p)))
+                }
             }
         }
     }
     drop(held);
-    say("=== pieces done");
-    drop(engine);
-    say("=== end");
+    clean
 }
 
 fn run_on(mode: &str, src: String) {
@@ -176,39 +195,105 @@ fn run_on(mode: &str, src: String) {
 
 /// `c18 batch <mode> <seconds>`: programs separated by a line `;;;===`, each on a fresh engine, framed by
 /// `=== begin <k>` … `=== end` (from run_all) … `=== done <k>`.  A watchdog ends the process (exit 3, after printing
-/// `=== timeout <k>`) when one program runs longer than <seconds>; the caller restarts after <k>.
+/// `=== timeout <k>`) when one program uses more than <seconds> of CPU time (or 20 x <seconds> of wall-clock time);
+/// the caller restarts after <k>.
+/// CPU time (user + system) this process has used, in milliseconds (from /proc/self/stat; 100 ticks per second).
+fn cpu_ms() -> u64 {
+    let stat = std::fs::read_to_string("/proc/self/stat").unwrap_or_default();
+    // the fields after the command name (which may contain spaces) start after the last ')'
+    let rest = stat.rsplit(')').next().unwrap_or("");
+    let f: Vec<&str> = rest.split_whitespace().collect();
+    let utime: u64 = f.get(11).and_then(|x| x.parse().ok()).unwrap_or(0);
+    let stime: u64 = f.get(12).and_then(|x| x.parse().ok()).unwrap_or(0);
+    (utime + stime) * 10
+}
+
 fn batch(mode: String, secs: u64, src: String) {
     use std::sync::atomic::{AtomicU64, Ordering};
     use std::sync::Arc;
-    let started = Arc::new(AtomicU64::new(0)); // (index + 1) << 32 | seconds since start of the batch
+    // what the current program started with: index + 1, CPU ms, wall ms (0 = between programs)
+    let cur = Arc::new((AtomicU64::new(0), AtomicU64::new(0), AtomicU64::new(0)));
     let t0 = std::time::Instant::now();
     {
-        let started = started.clone();
+        let cur = cur.clone();
+        let t0 = t0;
         std::thread::spawn(move || loop {
             std::thread::sleep(std::time::Duration::from_millis(100));
-            let v = started.load(Ordering::SeqCst);
-            if v == 0 {
+            let k = cur.0.load(Ordering::SeqCst);
+            if k == 0 {
                 continue;
             }
-            let idx = (v >> 32) - 1;
-            let at = v & 0xffff_ffff;
-            if t0.elapsed().as_secs() > at + secs {
-                say(&format!("\n=== timeout {}", idx));
+            let cpu = cpu_ms().saturating_sub(cur.1.load(Ordering::SeqCst));
+            let wall = (t0.elapsed().as_millis() as u64).saturating_sub(cur.2.load(Ordering::SeqCst));
+            // a loop burns CPU: the bound is CPU time, so that a loaded machine does not change the verdict;
+            // a blocked program burns nothing: a generous wall-clock bound catches that
+            if (cpu > secs * 1000 || wall > secs * 20_000) && cur.0.load(Ordering::SeqCst) == k {
+                say(&format!("\n=== timeout {}", k - 1));
                 std::process::exit(3);
             }
         });
     }
-    for (k, prog) in src.split("\n;;;===\n").enumerate() {
-        if prog.trim().is_empty() {
-            continue;
+    let body = move || {
+        // A program whose first line is `;;;reuse` runs on the engine of the program before it (same shape, next
+        // operation); any other program gets a fresh engine, the old one is torn down first (framed, so that a death
+        // in the teardown is attributed to the programs that used it).
+        let mut engine: Option<Engine> = None;
+        let mut last: u64 = 0;
+        for (k, prog) in src.split("\n;;;===\n").enumerate() {
+            if prog.trim().is_empty() {
+                continue;
+            }
+            let reuse = prog.starts_with(";;;reuse\n");
+            if !reuse {
+                if let Some(e) = engine.take() {
+                    say(&format!("=== teardown {}", last));
+                    cur.1.store(cpu_ms(), Ordering::SeqCst);
+                    cur.2.store(t0.elapsed().as_millis() as u64, Ordering::SeqCst);
+                    cur.0.store(last + 1, Ordering::SeqCst);
+                    drop(e);
+                    cur.0.store(0, Ordering::SeqCst);
+                    say("=== teardown done");
+                }
+            }
+            say(&format!("=== begin {}", k));
+            cur.1.store(cpu_ms(), Ordering::SeqCst);
+            cur.2.store(t0.elapsed().as_millis() as u64, Ordering::SeqCst);
+            cur.0.store(k as u64 + 1, Ordering::SeqCst);
+            let e = engine.get_or_insert_with(Engine::new);
+            let clean = run_pieces(e, prog);
+            say("=== end");
+            cur.0.store(0, Ordering::SeqCst);
+            say(&format!("=== done {}", k));
+            last = k as u64;
+            if !clean {
+                // an error or a caught panic may have left the engine half way (output port redirected, locks): retire it
+                if let Some(e) = engine.take() {
+                    say(&format!("=== teardown {}", last));
+                    cur.1.store(cpu_ms(), Ordering::SeqCst);
+                    cur.2.store(t0.elapsed().as_millis() as u64, Ordering::SeqCst);
+                    cur.0.store(last + 1, Ordering::SeqCst);
+                    drop(e);
+                    cur.0.store(0, Ordering::SeqCst);
+                    say("=== teardown done");
+                }
+            }
         }
-        say(&format!("=== begin {}", k));
-        started.store(((k as u64 + 1) << 32) | t0.elapsed().as_secs(), Ordering::SeqCst);
-        run_on(&mode, prog.to_string());
-        started.store(0, Ordering::SeqCst);
-        say(&format!("=== done {}", k));
+        if let Some(e) = engine.take() {
+            say(&format!("=== teardown {}", last));
+            drop(e);
+            say("=== teardown done");
+        }
+        say("=== batch end");
+    };
+    if let Some(bytes) = mode.strip_prefix("thread:") {
+        let n: usize = bytes.parse().expect("thread:<bytes>");
+        let h = std::thread::Builder::new().stack_size(n).spawn(body).expect("spawn");
+        if h.join().is_err() {
+            say("=> panic (escaped)");
+        }
+    } else {
+        body();
     }
-    say("=== batch end");
 }
 
 fn main() {
